@@ -4,6 +4,7 @@ package main
 
 import (
 	"fmt"
+	"go/token"
 	"go/types"
 	"sort"
 	"strings"
@@ -93,7 +94,7 @@ func validatorInline(p *Prog, sc *Scope) func(*ssa.Function) bool {
 		if !p.InLibrary(f) || f.Pkg == nil || f.Pkg.Pkg.Path() != modPath || opaque[f] {
 			return false
 		}
-		return f.Signature.Results().Len() == 1 && (errIndex(f) == 0 || isPredicate(f))
+		return f.Signature.Results().Len() == 1 && (errIndex(f) == 0 || isPredicate(f) || returnsResultStruct(f))
 	}
 }
 
@@ -295,6 +296,24 @@ func checkReturned(r *Report, m *spModel, rule string) {
 			okA := false
 			src := appendedValue(c)
 			if ld, ok := src.(*ssa.UnOp); ok {
+				// the parser hands back (assertion, err) as a result struct: *parsed.assertion under parsed.err == nil
+				if call, idx, ok := callComponent(ld.X); ok && idx < 0 {
+					inFam := false
+					if cands := p.CalleesAt(rf, call); len(cands) > 0 {
+						inFam = true
+						for _, ca := range cands {
+							if !fam[ca.Fn] {
+								inFam = false
+							}
+						}
+					}
+					if ei, okE := errComponent(call.Call.StaticCallee()); inFam && okE && ei < 0 {
+						name := "isnil(" + rc.AP(call) + "." + fieldName(call.Type(), -ei-1) + ")"
+						if B.HasVar(name) && rc.Implied(b, B.Var(name)) {
+							okA = true
+						}
+					}
+				}
 				if ex, ok := ld.X.(*ssa.Extract); ok && ex.Index == 0 {
 					if call, ok := ex.Tuple.(*ssa.Call); ok {
 						// the static callee, or every target of a call through a table of parser functions
@@ -329,6 +348,16 @@ func checkReturned(r *Report, m *spModel, rule string) {
 		}
 		v := Resolve(ret.Results[0])
 		_, isIdx := v.(*ssa.IndexAddr)
+		// a copy of an element (accepted := list[0]; return &accepted)
+		if al, isA := v.(*ssa.Alloc); isA && !isIdx {
+			if iv := initStore(al); iv != nil {
+				if ld, isL := iv.(*ssa.UnOp); isL && ld.Op == token.MUL {
+					if ia, ok := ld.X.(*ssa.IndexAddr); ok {
+						v, isIdx = ia, true
+					}
+				}
+			}
+		}
 		r.Check(isIdx && strings.Contains(rc.AP(v), "append#") || isIdx, rule, fmt.Sprintf("%s: success return is an element of the validated list", p.FnName(rf)), p.InstrPos(ret), rc.AP(v), "the response parser returns something other than an element of the list of validated assertions")
 	}
 }
@@ -389,10 +418,10 @@ func paramSources(p *Prog, fn *ssa.Function, idx int, depth int, seen map[string
 
 // slotSources: like paramSources for a context slot (a parameter, or a field of a parameter object).
 func slotSources(p *Prog, fn *ssa.Function, slot ctxSlot, depth int, seen map[string]bool) []string {
-	if slot.Field < 0 {
+	if slot.isParam() {
 		return paramSources(p, fn, slot.Param, depth, seen)
 	}
-	key := fmt.Sprintf("%p/%d.%d", fn, slot.Param, slot.Field)
+	key := fmt.Sprintf("%p/%d.%v", fn, slot.Param, slot.Path)
 	if seen[key] || depth > 6 {
 		return nil
 	}
@@ -405,12 +434,8 @@ func slotSources(p *Prog, fn *ssa.Function, slot ctxSlot, depth int, seen map[st
 	for _, cs := range sites {
 		v, forwarded := slotArgAt(cs, slot)
 		if forwarded {
-			if q := cs.Arg(slot.Param); q != nil {
-				for _, prm := range cs.Caller.Params {
-					if isParamOrSpill(q, prm) {
-						out = append(out, slotSources(p, cs.Caller, ctxSlot{paramIndex(cs.Caller, prm), slot.Field}, depth+1, seen)...)
-					}
-				}
+			if cslot, ok := callerSlot(cs, slot); ok {
+				out = append(out, slotSources(p, cs.Caller, cslot, depth+1, seen)...)
 			}
 			continue
 		}
